@@ -25,7 +25,8 @@ EXPECTED_PROBES = ['abandon_at_connected', 'abandon_at_poll',
                    'abandon_at_message', 'abandon_at_closing',
                    'abandon_at_unresponsive', 'abandon_while_closing',
                    'abandon_in_persist', 'abandon_at_ready',
-                   'abandon_while_other_thread_sends']
+                   'abandon_while_other_thread_sends',
+                   'reconnected_before_release']
 
 MECH = ['break', 'raise', 'close', 'with']
 SLOTS = 4 * 120
@@ -64,6 +65,7 @@ def _tinfo(b):
 def plan(tier):
     nb = len(C09.bases())
     return [('sweep', nb * SLOTS),
+            ('rebind', nb * (SLOTS // 4)),
             ('seeded', 2000 if tier == 'quick' else 100000),
             ('threaded_sweep', len(TBASES) * TSLOT * 2),
             ('threaded_random', 300 if tier == 'quick' else 30000)]
@@ -151,6 +153,14 @@ def make_case(family, i, rng, tier):
         if idx >= _nevents(b):
             return None
         return {'base': b, 'index': idx, 'how': MECH[m], 'faults': []}
+    if family == 'rebind':
+        # events = ws.connect(...) again on the same object: the new
+        # generator exists before the abandoned one is released
+        b = i // (SLOTS // 4)
+        idx = i % (SLOTS // 4)
+        if idx >= _nevents(b) or C09._bases()[b].get('persist'):
+            return None
+        return {'base': b, 'index': idx, 'how': 'rebind', 'faults': []}
     b = rng.randrange(len(C09._bases()))
     n = _nevents(b)
     case = {'base': b, 'index': rng.randrange(n), 'how': rng.choice(MECH),
@@ -168,6 +178,10 @@ def build(case):
     app.insert(0, {'when': {'index': case['index']},
                    'do': [{'op': 'abandon', 'how': case['how']}]})
     sc['app'] = app
+    if case['how'] == 'rebind':
+        sc['conns'] = [sc['conns'][0], copy.deepcopy(sc['conns'][0])]
+        sc['n_connects'] = 2
+        sc['observe_release'] = True
     return sc
 
 
@@ -234,6 +248,8 @@ def execute(case):
         res.stats['probe:abandon_while_closing'] += 1
     if sc.get('persist'):
         res.stats['probe:abandon_in_persist'] += 1
+    if how == 'rebind':
+        res.stats['probe:reconnected_before_release'] += 1
     res.nontrivial = bool(w.socks)
     res.sig = '%s|%d|%s|%r' % (base, idx, how, case.get('faults'))
     res.sample = {'base': base, 'abandon_at': idx, 'event': evname,
